@@ -68,12 +68,31 @@ def run(tier, seed):
         f = check_pointer(b, p)
         if f and len(failures) < 8:
             failures.append({"ident": "bounded/pointer", "script": "b_C20.py", "payload": {"what": "pointer", "base": b, "p": p}, "observed": f})
+    # the legacy helpers are pure functions of their arguments: what mapping some Program of the process selected before must not matter
+    from a816.program import Program
+    for selected in ("high", "low2", "low"):
+        Program().set_mapping(selected)
+        for b, p in pairs[:14]:
+            n += 1
+            f = check_pointer(b, p)
+            if f and len(failures) < 8:
+                failures.append({"ident": "bounded/pointer", "script": "b_C20.py", "payload": {"what": "pointer", "base": b, "p": p, "after_set_mapping": selected},
+                                 "observed": f + f" after a Program of the process selected the {selected} mapping"})
+        for mode in ("low_rom", "low_rom_2", "high_rom"):
+            for o in edges:
+                n += 1
+                f = check_offset(o, mode)
+                if f and len(failures) < 8:
+                    failures.append({"ident": f"bounded/offset-{mode}", "script": "b_C20.py", "payload": {"what": "offset", "o": o, "mode": mode, "after_set_mapping": selected}, "observed": f})
     return {"evaluations": n, "distinct_nontrivial": n, "exhaustive": tier == "thorough",
-            "rule": "offsets x 3 modes (thorough: all 4 MiB; quick: stride 0x1FF + range edges + seeded random) and (base, pointer) pairs at window edges; each distinct",
+            "rule": "pointer pairs and range edges again after Programs of the process selected each mapping; offsets x 3 modes (thorough: all 4 MiB; quick: stride 0x1FF + range edges + seeded random) and (base, pointer) pairs at window edges; each distinct",
             "samples": [{"offset": hex(0x37FFFF), "mode": "low_rom"}, {"base": hex(0x10), "pointer": hex(0x7FFF)}], "failures": failures}
 
 
 def replay(payload):
+    if payload.get("after_set_mapping"):
+        from a816.program import Program
+        Program().set_mapping(payload["after_set_mapping"])
     f = check_offset(payload["o"], payload["mode"]) if payload["what"] == "offset" else check_pointer(payload["base"], payload["p"])
     return {"failed": f is not None, "observed": f}
 
